@@ -35,6 +35,7 @@ static unsigned long oom_fail_at;         /* 0 = never */
 static void *oom_fail_site;               /* return address of the failed call */
 static void *oom_fail_site2;              /* its caller (best effort) */
 static unsigned long oom_failed_calls;    /* how many calls were failed */
+static int oom_fail_shrink;               /* the failed call was a realloc that does not grow */
 static int oom_fail_fd = -1;              /* written as soon as the failure is injected */
 static unsigned long oom_serial;
 
@@ -127,7 +128,11 @@ void *__wrap_calloc(size_t n, size_t sz)
 void *__wrap_realloc(void *old, size_t sz)
 {
 	void *site = OOM_SITE(), *p;
-	if (oom_should_fail(site)) return NULL;
+	if (oom_should_fail(site)) {
+		struct oom_blk *b = old ? oom_find(old) : NULL;
+		if (b && sz <= b->sz) oom_fail_shrink = 1;
+		return NULL;
+	}
 	if (old && oom_track) oom_forget(old);
 	else if (old) { struct oom_blk *b = oom_find(old); if (b) { b->p = NULL; --oom_nblk; } }
 	p = __real_realloc(old, sz);
